@@ -29,6 +29,33 @@ pub fn cobs_frame(data: &[u8]) -> Vec<u8> {
     out
 }
 
+/// The same with the convention of the COBS paper (and of most other encoders): when the data
+/// ends with a full block of 254 non-zero bytes, no further code byte follows it. Differs from
+/// `cobs_frame` only for such data.
+pub fn cobs_frame_canonical(data: &[u8]) -> Vec<u8> {
+    let mut f = cobs_frame(data);
+    let n = f.len();
+    // cobs_frame ended with [.., 0xFF-block data, 0x01, 0x00]: drop the 0x01
+    if n >= 257 && f[n - 2] == 1 && f[n - 257] == 0xFF && !f[n - 256..n - 2].contains(&0) && ends_on_block_boundary(&f[..n - 2]) {
+        f.remove(n - 2);
+    }
+    f
+}
+
+/// does the chain of code bytes of `enc` (no sentinel) end exactly at its end with a 0xFF block?
+pub fn ends_on_block_boundary(enc: &[u8]) -> bool {
+    let mut pos = 0usize;
+    let mut last = 0u8;
+    while pos < enc.len() {
+        last = enc[pos];
+        if last == 0 {
+            return false;
+        }
+        pos += last as usize;
+    }
+    pos == enc.len() && last == 0xFF
+}
+
 #[cfg(test)]
 mod tests {
     use super::*;
@@ -42,5 +69,15 @@ mod tests {
         assert_eq!(f.len(), 254 + 3);
         assert_eq!(f[0], 0xFF);
         assert_eq!(f[255], 1);
+        let c = cobs_frame_canonical(&v);
+        assert_eq!(c.len(), 256);
+        assert_eq!(c[0], 0xFF);
+        assert_eq!(c[255], 0);
+        // not at a block boundary: identical
+        let w = vec![7u8; 255];
+        assert_eq!(cobs_frame_canonical(&w), cobs_frame(&w));
+        let mut z = vec![7u8; 254];
+        z[3] = 0;
+        assert_eq!(cobs_frame_canonical(&z), cobs_frame(&z));
     }
 }
